@@ -21,6 +21,9 @@ package main
 
 import (
 	"context"
+	"flag"
+	"os"
+	"runtime/pprof"
 	"errors"
 	"fmt"
 	"runtime"
@@ -62,8 +65,24 @@ var (
 )
 
 func key(who string) *keys.PrivateKey { return vkit.Key("c28-" + who) }
-func pub(who string) []byte           { return key(who).PublicKey().Bytes() }
-func uid(who string) user.ID          { return user.NewFromScriptHash(key(who).PublicKey().GetScriptHash()) }
+
+type ident struct {
+	pub []byte
+	uid user.ID
+}
+
+var idents sync.Map
+
+func identOf(who string) ident {
+	if v, ok := idents.Load(who); ok {
+		return v.(ident)
+	}
+	i := ident{key(who).PublicKey().Bytes(), user.NewFromScriptHash(key(who).PublicKey().GetScriptHash())}
+	idents.Store(who, i)
+	return i
+}
+func pub(who string) []byte  { return identOf(who).pub }
+func uid(who string) user.ID { return identOf(who).uid }
 
 // ---------------------------------------------------------------- case description
 
@@ -793,7 +812,12 @@ func generate(quick bool, emit func(tcase)) {
 }
 
 func main() {
+	prof := flag.String("cpuprofile", "", "write a CPU profile (debugging aid)")
 	r := ev.Start("C28", ev.Exploration)
+	if *prof != "" {
+		f, _ := os.Create(*prof)
+		pprof.StartCPUProfile(f)
+	}
 	objects["local-v"], objects["local-w"] = mkObject("local-v", "v"), mkObject("local-w", "w")
 	objects["remote-v"], objects["remote-w"] = mkObject("remote-v", "v"), mkObject("remote-w", "w")
 	le, err := aclworld.NewLocalEngine(curEpoch, objects["local-v"], objects["local-w"])
@@ -866,5 +890,6 @@ func main() {
 		"object-attribute filters are decidable only where the protocol carries the object header (PUT request, GET/HEAD object); for DELETE/RANGE/SEARCH they match nothing",
 		"an inapplicable bearer token makes the implementation refuse the request outright where the property would fall back to the stored table: stricter, not judged")
 	r.Exhaustive(!expired.Load())
+	pprof.StopCPUProfile()
 	r.Finish()
 }
